@@ -244,6 +244,22 @@ func (mc *modelCase) compare(c *fw.Case, m *refmodel.Model, rs *jsonschema.Resol
 	if got != want {
 		c.Violation(fmt.Sprintf("%s: Validate says valid=%v, the specification (reference model) says valid=%v", what, got, want),
 			mc.witness(map[string]any{"instance": json.RawMessage(itext), "library_valid": got, "model_valid": want, "py_checkable": true}))
+		return want, true
+	}
+	if c.R.IntN(6) == 0 {
+		// the same instance as a Decoder.UseNumber program sees it: numbers as json.Number, in another lexical form of the same
+		// value (10e-1, 1.0, 5E-1 ...). The validity relation is about JSON VALUES, so the verdict must be the same.
+		alt := gen.Respell(c.R, gen.Parse(itext))
+		adesc := "json.Number form " + gen.Text(alt)
+		got2, ok := validate(c, rs, mc.rootText, alt, adesc)
+		if !ok {
+			return want, false
+		}
+		c.Eval(1)
+		if got2 != want {
+			c.Violation(fmt.Sprintf("%s: Validate says valid=%v for the instance decoded with UseNumber, the specification (reference model) says valid=%v", what, got2, want),
+				mc.witness(map[string]any{"instance": json.RawMessage(itext), "instance_as_given": adesc, "library_valid": got2, "model_valid": want}))
+		}
 	}
 	return want, true
 }
